@@ -6,6 +6,7 @@ package main
 import (
 	"go/types"
 	"sort"
+	"strings"
 
 	"golang.org/x/tools/go/ssa"
 )
@@ -84,6 +85,16 @@ func (w *World) InvokeTargets(c *ssa.CallCommon) []*ssa.Function {
 // stop (optional) prunes the walk at functions for which it returns true (they are included
 // but not expanded).
 func (w *World) Reach(roots []*ssa.Function, stop func(*ssa.Function) bool) map[*ssa.Function]bool {
+	return w.reach(roots, stop, false)
+}
+
+// ReachModIfaces is Reach with interface calls resolved only for interfaces declared in the
+// module (calls through io.Closer, io.Writer, error, … are not expanded to every module type).
+func (w *World) ReachModIfaces(roots []*ssa.Function, stop func(*ssa.Function) bool) map[*ssa.Function]bool {
+	return w.reach(roots, stop, true)
+}
+
+func (w *World) reach(roots []*ssa.Function, stop func(*ssa.Function) bool, modIfacesOnly bool) map[*ssa.Function]bool {
 	seen := map[*ssa.Function]bool{}
 	var st []*ssa.Function
 	push := func(f *ssa.Function) {
@@ -109,6 +120,11 @@ func (w *World) Reach(roots []*ssa.Function, stop func(*ssa.Function) bool) map[
 			for _, in := range b.Instrs {
 				if c := callOf(in); c != nil {
 					if c.IsInvoke() {
+						if modIfacesOnly {
+							if n, ok := c.Value.Type().(*types.Named); !ok || n.Obj().Pkg() == nil || !(n.Obj().Pkg().Path() == modPath || strings.HasPrefix(n.Obj().Pkg().Path(), modPath+"/")) {
+								continue
+							}
+						}
 						for _, t := range w.InvokeTargets(c) {
 							push(t)
 						}
